@@ -40,3 +40,56 @@ def CASES : List (List Nat × List Nat) := [([45,117,110,99], [45,45,117,110,99,
 theorem compat_table_spec : CASES.all (fun c => compatArg c.1 == .arg c.2) = true := by decide +kernel
 
 end CLI
+
+namespace CLI
+
+def lowerAscii (s : List Nat) : List Nat := s.map fun c => if 65 ≤ c ∧ c ≤ 90 then c + 32 else c
+
+def endsWith (s suf : List Nat) : Bool := s.drop (s.length - suf.length) == suf
+
+/-- `Path::file_name`: the part after the last `/` -/
+def fileName (s : List Nat) : List Nat := (s.reverse.takeWhile (· ≠ 47)).reverse
+
+def sBigtools : List Nat := [98, 105, 103, 116, 111, 111, 108, 115]
+
+/-- the commands whose arguments are rewritten -/
+def COMPAT_COMMANDS : List (List Nat) :=
+  [[98,101,100,103,114,97,112,104,116,111,98,105,103,119,105,103],          -- bedgraphtobigwig
+   [98,101,100,116,111,98,105,103,98,101,100],                              -- bedtobigbed
+   [98,105,103,98,101,100,116,111,98,101,100],                              -- bigbedtobed
+   [98,105,103,119,105,103,105,110,102,111],                                -- bigwiginfo
+   [98,105,103,119,105,103,97,118,101,114,97,103,101,111,118,101,114,98,101,100],   -- bigwigaverageoverbed
+   [98,105,103,119,105,103,116,111,98,101,100,103,114,97,112,104]]          -- bigwigtobedgraph
+
+inductive ArgsRes where
+  | args (l : List (List Nat))
+  | panic
+deriving DecidableEq, Repr
+
+def mapCompat : List (List Nat) → ArgsRes
+  | [] => .args []
+  | a :: rest =>
+    match compatArg a, mapCompat rest with
+    | .arg a', .args r => .args (a' :: r)
+    | _, _ => .panic
+
+/-- `compat_args` (ASCII arguments; the `bigwigmerge` positional rewriting is not modelled): multicall dispatch on
+    `bigtools <sub> …`, lower-casing of the program / sub-command token, rewriting of every argument of the
+    listed commands. -/
+def compatArgs : List (List Nat) → ArgsRes
+  | [] => .args []
+  | first :: rest =>
+    if endsWith (lowerAscii first) sBigtools then
+      match rest with
+      | [] => .args [first]
+      | second :: rest2 =>
+        let second' := if lowerAscii second == [45, 118] then second else lowerAscii second
+        let command := lowerAscii (fileName second')
+        if COMPAT_COMMANDS.contains command then mapCompat (first :: second' :: rest2)
+        else .args (first :: second' :: rest2)
+    else
+      let command := lowerAscii (fileName first)
+      let first' := lowerAscii first
+      if COMPAT_COMMANDS.contains command then mapCompat (first' :: rest) else .args (first' :: rest)
+
+end CLI
